@@ -192,6 +192,7 @@ class LocalMonitor:
         g['misdirected_ok'] = F
         g['inval_pending'] = F
         g['wrong_actual'] = F
+        g['proc_left_at_exit'] = F    # the actor returned while a process it spawned was still running (nobody is left to stop it)
         g['env_inconsistent'] = F     # the environment changed the `actual` flag of a (dependency, kind) between two Ok messages
         for d in range(me):
             for kind in ('Build', 'Service'):
@@ -215,6 +216,8 @@ class LocalMonitor:
                 word[(d, kind)] = z3.If(ok_, T, z3.If(inv, F, w))
                 g2['word.%d.%s' % (d, kind)] = word[(d, kind)]
         sp = obs.get('spawn', me)
+        if kindme != 'aggregate':
+            g2['proc_left_at_exit'] = z3.Or(g['proc_left_at_exit'], z3.And(z3.Not(S2['alive.%d' % me]), S2['proc.%d' % me]))
         decide = obs.get('decide', me) if kindme == 'build' else sp
         wbad = z3.Or([z3.And(sysm.dep[me][d], z3.Not(word[(d, kind)])) for d in range(me) for kind in ('Build', 'Service')] + [F])
         if kindme != 'aggregate':
